@@ -206,6 +206,10 @@ void harness(void){
     assert(ro1==ro && co1==co);
     if(rc==HTP_OK && C.out_state==htp_connp_RES_LINE){ assert(TX.response_status_number==100 && n_headers==0); }
     else if(rc!=HTP_ERROR || n_headers) { assert(n_headers==1); }
+    /* C04/C05: EVERY interim 100 (no TE, no positive CL) restarts at the status line - a second one must not complete the transaction */
+    { int early2 = (TX.request_method_number==HTP_M_CONNECT && TX.response_status_number>=200 && TX.response_status_number<=299);
+      int cl_pos = has_cl && bstr_ptr(H_CL.value)[0]>='1' && bstr_ptr(H_CL.value)[0]<='9';
+      if(TX.response_status_number==100 && !has_te && !cl_pos && !early2){ assert(rc==HTP_OK && C.out_state==htp_connp_RES_LINE && TX.response_progress==HTP_RESPONSE_LINE && TX.seen_100continue==s100+1 && n_headers==0); } }
     /* C16: CONNECT 2xx => FINALIZE and wait; 101 without CL/TE => both directions tunnel */
     if(TX.request_method_number==HTP_M_CONNECT && TX.response_status_number>=200 && TX.response_status_number<=299){ assert(C.out_state==htp_connp_RES_FINALIZE && rc==rc_headers && C.in_status==ist && C.out_status==st0); }
     else if(TX.response_status_number==101 && !has_te && !has_cl){ assert(C.out_state==htp_connp_RES_FINALIZE && C.out_status==HTP_STREAM_TUNNEL && rc==rc_headers); if(ist!=HTP_STREAM_ERROR && ist!=HTP_STREAM_STOP) assert(C.in_status==HTP_STREAM_TUNNEL); }
